@@ -6,11 +6,15 @@ Driver for C16.  Op lines (tokens percent-encoded as in `Basic/Proto.lean`):
 
 * `new <main|proxy> T <n> <entry>*n A <m> <entry>*m S …`     construct a server with these two configured lists
 * `reload <main|proxy> T <n> <entry>*n A <m> <entry>*m S …`  `Reload` of the running server
-    entry = `_` (empty after trimming) | `!` (not an address / CIDR) | `<hex ip>/<hex mask>`
-    output: `cfg <trusted> <allow>` (effective lists, `hexip/hexmask` joined by `,`, `-` if empty) or, when the
-    constructor refuses the lists, `err cfg …` with the lists of the fallback server (nothing configured);
-    main: the raw `IP` / `Mask` bytes of every `net.IPNet`; proxy (which cannot see the fields): the
-    networks as `IPNet.String` prints them, re-read with `net.ParseCIDR`
+    entry = `_` (empty after trimming) | `!` (not an address / CIDR) | `h<hex ip>` (no `/`: a single address,
+    bytes of `net.ParseIP`) | `<hex ip>/<hex mask>` (with `/`: `IP` and `Mask` of `net.ParseCIDR`)
+    output: `cfg <trusted> <allow>` (effective lists, networks joined by `,`, `-` if empty) or, when the
+    constructor refuses the lists, `err cfg …` with the lists of the fallback server (nothing configured).
+    A network is shown in canonical form `<4|6>:<hex of the 16-byte network address>/<prefix length>` — family,
+    masked address and prefix length as `IPNet.Contains` sees them (`networkNumberAndMask`), so 4-byte and
+    16-byte forms of the same IPv4 network, or an address stored with host bits, compare equal;
+    `?<hex ip>/<hex mask>` for anything that has no such form.  main: from the `IP` / `Mask` bytes of every
+    `net.IPNet`; proxy (which cannot see the fields): from `IPNet.String`, re-read with `net.ParseCIDR`
 * `ip <srv|nil> <tok> X <n> <tok>*n F <m> <tok>*m R …`          `GetRealUserIP`; output = encoded address text
 * `get <main|proxy> <route> <tok> X <n> <tok>*n F <m> <tok>*m R …`  HTTP status of `GET route`
     tok = `<encoded text>;<hex of net.ParseIP(text) | ->`
@@ -34,7 +38,9 @@ def parseCidr (s : String) : Option Cidr := do
   some { ip := ← parseHex a, mask := ← parseHex b }
 
 def parseEntry (s : String) : Option Entry :=
-  if s = "_" then some .skip else if s = "!" then some .bad else (parseCidr s).map .net
+  if s = "_" then some .skip else if s = "!" then some .bad
+  else if hasPrefix "h" s then (parseHex (dropS 1 s)).map .host
+  else (parseCidr s).map .net
 
 def parseTok (s : String) : Option Tok := do
   let (a, b) ← splitAtChar ';' s
@@ -80,19 +86,23 @@ def parseReq : List String → Option Req
 
 def showCidr (c : Cidr) : String := natsToHex c.ip ++ "/" ++ natsToHex c.mask
 
-/-- What survives `IPNet.String` + `net.ParseCIDR`: network number and mask of the address family. -/
-def normCidr (c : Cidr) : Cidr :=
+def andBytes : List Nat → List Nat → List Nat
+  | a :: as, b :: bs => (a &&& b) :: andBytes as bs
+  | _, _ => []
+
+/-- Family, masked 16-byte network address and prefix length, as `IPNet.Contains` reads the network. -/
+def canonCidr (c : Cidr) : String :=
   let (nn, m) := networkNumberAndMask c
-  { ip := nn, mask := m }
+  if (nn.length = 4 ∨ nn.length = 16) ∧ m.length = nn.length ∧ canonicalMask m ∧ bytesOk nn then
+    let a := andBytes nn m
+    (if nn.length = 4 then "4:" ++ natsToHex (v4InV6Prefix ++ a) else "6:" ++ natsToHex a)
+      ++ "/" ++ toString (leadingOnes (bitsOf m))
+  else "?" ++ showCidr c
 
-def showList (s : Server) (l : List Cidr) : String :=
-  if l.isEmpty then "-" else
-  ",".intercalate (l.map fun c => showCidr (match s with | .main => c | .proxy => normCidr c))
+def showList (l : List Cidr) : String :=
+  if l.isEmpty then "-" else ",".intercalate (l.map canonCidr)
 
-def showCfg (s : Server) (c : Config) : String := s!"cfg {showList s c.trusted} {showList s c.allow}"
-
-def parseList (s : String) : Option (List Cidr) :=
-  if s = "-" then some [] else (s.splitOn ",").mapM parseCidr
+def showCfg (c : Config) : String := s!"cfg {showList c.trusted} {showList c.allow}"
 
 def parseServer (s : String) : Option Server :=
   if s = "main" then some .main else if s = "proxy" then some .proxy else none
@@ -101,31 +111,21 @@ structure St where
   cfg : Config := Config.default
   judge : Judge := {}
 
-/-- The judge learns the configuration from the implementation's own report. -/
-def learn (j : Judge) : List String → Judge
-  | ["cfg", t, a] =>
-    match parseList t, parseList a with
-    | some tl, some al => { trusted := tl, allow := al, known := true }
-    | _, _ => j
-  | "err" :: rest => learn j rest
-  | _ => j
-
-
 def step (st : St) (op impl : List String) : St × String × String :=
   match op with
   | "new" :: srv :: rest =>
     match parseServer srv, parseCfg rest with
-    | some s, some (t, a) =>
+    | some _, some (t, a) =>
       match Config.fresh t a with
-      | some c => ({ cfg := c, judge := learn st.judge impl }, showCfg s c, "na")
+      | some c => ({ cfg := c, judge := Judge.fresh t a }, showCfg c, "na")
       -- the harness falls back to a server with an empty configuration
-      | none => ({ cfg := Config.default, judge := learn {} impl }, "err " ++ showCfg s Config.default, "na")
+      | none => ({ cfg := Config.default, judge := Judge.fresh t a }, "err " ++ showCfg Config.default, "na")
     | _, _ => (st, "bad-op", "na")
   | "reload" :: srv :: rest =>
     match parseServer srv, parseCfg rest with
-    | some s, some (t, a) =>
+    | some _, some (t, a) =>
       let c := st.cfg.reload t a
-      ({ cfg := c, judge := learn st.judge impl }, showCfg s c, "na")
+      ({ cfg := c, judge := st.judge.reload t a }, showCfg c, "na")
     | _, _ => (st, "bad-op", "na")
   | "ip" :: mode :: rest =>
     match parseReq rest with
